@@ -291,10 +291,8 @@ fn st_send_disconnect_v5_server() {
     let mut c = fam_server_connected(Version::V5_0);
     let pre = tm_of(&c);
     let rc: u8 = kani::any();
-    let rc = match DisconnectReasonCode::try_from(rc) {
-        Ok(r) => r,
-        Err(_) => return,
-    };
+    kani::assume(DisconnectReasonCode::try_from(rc).is_ok());
+    let rc = DisconnectReasonCode::try_from(rc).unwrap();
     let p = v5_0::Disconnect::builder().reason_code(rc).build().unwrap();
     let ev = c.process_send_v5_0_disconnect(p);
     monitor(pre, &ev, &c);
@@ -1455,10 +1453,8 @@ fn st_send_pubrec_v5_handled() {
     c.publish_recv.insert(g);
     c.publish_recv_max = Some(2);
     let rcb: u8 = kani::any();
-    let rc = match PubrecReasonCode::try_from(rcb) {
-        Ok(r) => r,
-        Err(_) => return,
-    };
+    kani::assume(PubrecReasonCode::try_from(rcb).is_ok());
+    let rc = PubrecReasonCode::try_from(rcb).unwrap();
     let with_rc: bool = kani::any();
     let mut b = v5_0::GenericPubrec::<u16>::builder().packet_id(h);
     if with_rc {
@@ -1599,10 +1595,7 @@ fn st_send_publish_v5_manual_alias_bind() {
     kani::assume(kx <= 1 && ax >= 1);
     kani::cover!(ax == a2 && kx != k2, "re-binding an alias to another topic");
     kani::cover!(ax > 3, "alias above the peer's Topic Alias Maximum");
-    let p = match mk_pub5_alias(byte_of(kx), ax) {
-        Some(p) => p,
-        None => return,
-    };
+    let p = mk_pub5_alias(byte_of(kx), ax).unwrap();
     let pre = tm_of(&c);
     let ev = c.process_send_v5_0_publish(p);
     monitor(pre, &ev, &c);
@@ -1666,10 +1659,7 @@ fn st_send_publish_v5_alias_resolve() {
     } else {
         let ax: u16 = kani::any();
         kani::assume(ax >= 1);
-        let p = match mk_pub5_alias(0, ax) {
-            Some(p) => p,
-            None => return,
-        };
+        let p = mk_pub5_alias(0, ax).unwrap();
         kani::cover!(has_table && ax <= 3 && r[ax as usize] != 0, "empty topic with a bound alias");
         kani::cover!(has_table && ax <= 3 && r[ax as usize] == 0, "empty topic with an unbound alias");
         let ev = c.process_send_v5_0_publish(p);
